@@ -186,6 +186,16 @@ def rule_table(ctx: Ctx) -> None:  # noqa: C901
         ctx.add("1-table", load, load.node, "load" in got, f"`{k}` are read back from the recorded path(s)" if "load" in got else f"`{k}` are not reloaded from the recorded path(s)", key=f"reload {k}")
 
 
+def rule_fresh_load(ctx: Ctx) -> None:
+    """Every reload deserialises again: results are not served from a process-wide cache of mutable objects."""
+    P = ctx.prog
+    for q in (f"{RI}.RunInfo.load", "pipefunc.map._load.load_outputs", "pipefunc.map._run._load_from_store"):
+        f = P.func(q)
+        cached = [c for _f, c in Scope(ctx, f).calls("load") if any(k.arg == "cache" and not (isinstance(k.value, ast.Constant) and k.value.value is False) for k in c.keywords)]
+        ctx.add("1-table", f, cached[0] if cached else f.node, not cached, f"{f.name} unpickles on every call" if not cached else
+                f"`{norm(cached[0])[:60]}` serves the object from a process-wide cache: all callers share one mutable object, so an in-place edit of a reloaded input/default shows up in every later reload although the folder is untouched", key=f"fresh-load {f.name}")
+
+
 def rule_paths(ctx: Ctx) -> None:
     P = ctx.prog
     ri = P.cls(f"{RI}.RunInfo")
@@ -318,7 +328,7 @@ def rule_persist(ctx: Ctx) -> None:  # noqa: C901
 
 
 def check(ctx: Ctx) -> None:
-    for rule in (rule_table, rule_paths, rule_process, rule_rebuild, rule_persist):
+    for rule in (rule_table, rule_fresh_load, rule_paths, rule_process, rule_rebuild, rule_persist):
         ctx.run(rule)
 
 
